@@ -310,7 +310,11 @@ class DispatchingShell(cmd.Cmd):
                 value = self.settings.getstr(name)
                 print(f'{name}: {value}', file=self.outfile)
         else:
-            components = shlex.split(arg)
+            try:
+                components = shlex.split(arg)
+            except ValueError as ex:
+                self.error(f'invalid arguments: {ex}')
+                return
             name = components[0]
             if len(components) == 1:
                 try:
@@ -431,7 +435,11 @@ class BQLShell(DispatchingShell):
                 print()
             return
 
-        name, *args = shlex.split(arg)
+        try:
+            name, *args = shlex.split(arg)
+        except ValueError as ex:
+            self.error(f'invalid arguments: {ex}')
+            return
         if args:
             self.error('too many arguments for "run" command')
             return
@@ -453,7 +461,11 @@ class BQLShell(DispatchingShell):
         """Describe table or structured type."""
         def describe(obj):
             return '\n'.join(f'  {name} ({types.name(column.dtype)})' for name, column in obj.columns.items())
-        names = shlex.split(arg)
+        try:
+            names = shlex.split(arg)
+        except ValueError as ex:
+            self.error(f'invalid arguments: {ex}')
+            return
         for name in names:
             table = self.context.tables.get(name)
             if table:
